@@ -265,6 +265,11 @@ impl Acc {
 pub enum Act {
     /// peer publishes its key bundle message
     Kb(usize),
+    /// a freshly rotated key bundle of the peer (own identity key, new pre-key, later expiry than
+    /// every bundle before) arrives as a key-bundle message signed by the peer; the frozen clock
+    /// never lets `key_bundle_message()` rotate, so the harness builds the bundle with the peer's
+    /// credentials exactly as the identity manager would
+    KbFresh(usize),
     /// peer 0 creates the space with these further initial members
     Create(Vec<(usize, Acc)>),
     Add(usize, usize, Acc),
@@ -279,6 +284,7 @@ impl Act {
     fn show(&self) -> String {
         match self {
             Act::Kb(p) => format!("{}.key_bundle_message()", NAMES[*p]),
+            Act::KbFresh(p) => format!("{}.key_bundle_message(rotated)", NAMES[*p]),
             Act::Create(ms) => format!(
                 "A.create_space([{}])",
                 ms.iter().map(|(p, a)| format!("{}:{:?}", NAMES[*p], a)).collect::<Vec<_>>().join(",")
@@ -302,9 +308,17 @@ struct Model {
 }
 
 impl Model {
-    fn options(&self, peers: usize, accs: &[Acc], kb_actors: &[usize]) -> Vec<Act> {
+    fn options(&self, peers: usize, accs: &[Acc], kb_actors: &[usize], kb_only: bool) -> Vec<Act> {
         let mut v = vec![];
         if !self.created {
+            return v;
+        }
+        if kb_only {
+            for &x in kb_actors {
+                if x < peers {
+                    v.push(Act::KbFresh(x));
+                }
+            }
             return v;
         }
         let managers: Vec<usize> = self.members.iter().filter(|(_, a)| **a == Acc::Manage).map(|(p, _)| *p).collect();
@@ -650,6 +664,33 @@ impl World {
                 let m = self.peers[*p].manager.key_bundle_message().await.map_err(|e| e.to_string())?;
                 Ok(vec![m])
             }
+            Act::KbFresh(p) => {
+                let serial = self.ops.len() as u64;
+                let mut seed = [0x4Bu8; 32];
+                seed[0] = *p as u8;
+                seed[1..9].copy_from_slice(&serial.to_le_bytes());
+                let rng = Rng::from_seed(seed);
+                let identity = self.peers[*p].credentials.identity_secret();
+                let prekey_secret = SecretKey::from_rng(&rng).map_err(|e| e.to_string())?;
+                // every rotation lives a day longer than the one before
+                let prekey = PreKey::new(prekey_secret.verifying_key().map_err(|e| e.to_string())?, Lifetime::new(30 * 86400 + serial * 86400));
+                let signature = prekey.sign(&identity, &rng).map_err(|e| e.to_string())?;
+                let key_bundle = LongTermKeyBundle::new(identity.verifying_key().map_err(|e| e.to_string())?, prekey, signature);
+                let key = self.peers[*p].credentials.signing_key();
+                let mut header = Header {
+                    version: 1,
+                    verifying_key: key.verifying_key(),
+                    signature: None,
+                    payload_size: 0,
+                    payload_hash: None,
+                    seq_num: 0,
+                    backlink: None,
+                    extensions: SpacesArgs::KeyBundle { key_bundle },
+                };
+                header.sign(&key);
+                let hash = header.hash();
+                Ok(vec![TestOperation { hash, header, body: None }])
+            }
             Act::Create(ms) => {
                 let members: Vec<(VerifyingKey, Access<()>)> = ms.iter().map(|(p, a)| (self.peers[*p].manager.id(), a.access())).collect();
                 let (_space, msgs) = self.peers[0].manager.create_space_persisted(self.space_id, &members).await.map_err(|e| e.to_string())?;
@@ -718,7 +759,7 @@ async fn run_once(cfg: RunCfg<'_>) -> RunOut {
 
     for (act_idx, act) in cfg.acts.iter().enumerate() {
         let author = match act {
-            Act::Kb(p) | Act::App(p) => *p,
+            Act::Kb(p) | Act::KbFresh(p) | Act::App(p) => *p,
             Act::Create(_) => 0,
             Act::Add(x, _, _) | Act::Remove(x, _) => *x,
         };
@@ -741,7 +782,9 @@ async fn run_once(cfg: RunCfg<'_>) -> RunOut {
             w.ops.push(op.clone());
             let mut row = vec![None; n];
             for p in 0..n {
-                if p == author {
+                // a rotated bundle was not produced through the author's own manager (as if rotated
+                // on another device of the same identity): the author learns it like everybody else
+                if p == author && !matches!(act, Act::KbFresh(_)) {
                     continue;
                 }
                 if let Err(e) = w.peers[p].persist_operation(&op).await {
@@ -1055,11 +1098,9 @@ impl<'a> Adversary<'a> {
             if let Some(dms) = &real_dms {
                 dm_menu.push(("dm=replayed", dms.clone()));
             }
-            let group_menu: Vec<(&str, VerifyingKey)> = if self.menu.wide {
-                vec![("group=space-group", gid), ("group=unknown", self.unknown_group)]
-            } else {
-                vec![("group=space-group", gid)]
-            };
+            // the group id of a membership message is chosen by its author: also in the narrow
+            // menu a pointer into the known space may name another group
+            let group_menu: Vec<(&str, VerifyingKey)> = vec![("group=space-group", gid), ("group=unknown", self.unknown_group)];
             let mut carried: Vec<TestOperation> = vec![];
             for (pname, target, op) in &pointers {
                 if let Some(op) = op {
@@ -1206,6 +1247,8 @@ struct Config {
     peers: usize,
     depth: usize,
     accs: Vec<Acc>,
+    /// after the create only rotated key bundles are published (a member with many key bundles)
+    kb_only: bool,
 }
 
 struct Params {
@@ -1250,7 +1293,7 @@ fn generate(ch: &Chooser, params: &Params) -> Scenario {
     acts.push(create);
     fixed_at.push(ch.log().len());
     for _ in 0..cfg.depth {
-        let opts = model.options(peers, &cfg.accs, &params.kb_actors);
+        let opts = model.options(peers, &cfg.accs, &params.kb_actors, cfg.kb_only);
         if opts.is_empty() {
             break;
         }
@@ -1470,7 +1513,7 @@ async fn execute(ch: &Chooser, params: &Params) -> ExecOut {
     }
     // non-trivial: the scenario changed membership after creation or carried application data, so
     // duplicates hit states where they could matter
-    ex.nontrivial = !positions.is_empty() && executed.iter().any(|a| matches!(a, Act::Add(..) | Act::Remove(..) | Act::App(..)));
+    ex.nontrivial = !positions.is_empty() && executed.iter().any(|a| matches!(a, Act::Add(..) | Act::Remove(..) | Act::App(..) | Act::KbFresh(..)));
     ex
 }
 
@@ -1488,16 +1531,17 @@ pub fn run(mut rep: Report) -> i32 {
     let params = if thorough {
         Params {
             configs: vec![
-                Config { peers: 2, depth: 3, accs: vec![Acc::Write, Acc::Pull, Acc::Manage] },
-                Config { peers: 3, depth: 2, accs: vec![Acc::Write, Acc::Pull] },
+                Config { peers: 2, depth: 3, accs: vec![Acc::Write, Acc::Pull, Acc::Manage], kb_only: false },
+                Config { peers: 3, depth: 2, accs: vec![Acc::Write, Acc::Pull], kb_only: false },
+                Config { peers: 3, depth: 6, accs: vec![Acc::Write], kb_only: true },
             ],
             kb_actors: vec![1, 2],
             menu: Menu { member_authors: 1, wide: true },
         }
     } else {
-        Params { configs: vec![Config { peers: 2, depth: 2, accs: vec![Acc::Write, Acc::Pull] }], kb_actors: vec![1], menu: Menu { member_authors: 1, wide: false } }
+        Params { configs: vec![Config { peers: 2, depth: 2, accs: vec![Acc::Write, Acc::Pull], kb_only: false }, Config { peers: 2, depth: 5, accs: vec![Acc::Write], kb_only: true }], kb_actors: vec![1], menu: Menu { member_authors: 1, wide: false } }
     };
-    let cfg_text = params.configs.iter().map(|c| format!("{} peers/{} actions after create/access {:?}", c.peers, c.depth, c.accs)).collect::<Vec<_>>().join(" | ");
+    let cfg_text = params.configs.iter().map(|c| format!("{} peers/{} actions after create/access {:?}{}", c.peers, c.depth, c.accs, if c.kb_only { "/only rotated key bundles after create" } else { "" })).collect::<Vec<_>>().join(" | ");
     rep.rule = format!(
         "scenario = config in [{cfg_text}] x bootstrap(out-of-band | key-bundle messages) x every create_space variant x every model-valid action sequence over add/remove/publish/key-bundle; every prefix is probed once (by the scenario whose later choices are all 0): totality menu for every receiver after every owned action, and for every owned message position j one run in which every peer re-processes every message i<=j; non-trivial = owning scenario with a membership change or an application message after creation"
     );
